@@ -66,12 +66,14 @@ package decorator
 //@ ensures comments_prefix: len(r.comments) >= old(len(r.comments)) && (forall j int :: 0 <= j && j < old(len(r.comments)) ==> r.comments[j] == old(r.comments[j]))
 //@ ensures ends_at_newline: len(decorations) > 0 && isBreak(decorations[len(decorations)-1]) && !isFileStart(node, name) ==> r.cursorAtNewLine == r.cursor
 //@ ensures lines_array_old_or_fresh: arr(r.lines) == old(arr(r.lines)) || !wasAllocated(arr(r.lines))
+//@ ensures block_comment_is_not_a_break: len(decorations) > 0 && hasPrefix(decorations[len(decorations)-1], "/*") ==> r.cursorAtNewLine < r.cursor
 //@ ensures empty_is_noop: len(decorations) == 0 && !isFileStart(node, name) ==> r.cursor == old(r.cursor) && r.cursorAtNewLine == old(r.cursorAtNewLine) && len(r.lines) == old(len(r.lines)) && len(r.comments) == old(len(r.comments))
 //@ loop 1 invariant inv: r.inv()
 //@ loop 1 invariant cursor_monotone: r.cursor >= entry(r.cursor)
 //@ loop 1 invariant lines_prefix: len(r.lines) >= entry(len(r.lines)) && (forall j int :: 0 <= j && j < entry(len(r.lines)) ==> r.lines[j] == entry(r.lines[j]))
 //@ loop 1 invariant comments_prefix: len(r.comments) >= entry(len(r.comments)) && (forall j int :: 0 <= j && j < entry(len(r.comments)) ==> r.comments[j] == entry(r.comments[j]))
 //@ loop 1 invariant at_newline: $i > 0 && isBreak(decorations[$i-1]) ==> r.cursorAtNewLine == r.cursor
+//@ loop 1 invariant after_block_comment: $i > 0 && hasPrefix(decorations[$i-1], "/*") ==> r.cursorAtNewLine < r.cursor
 //@ loop 1 invariant untouched: $i == 0 ==> r.cursor == entry(r.cursor) && r.cursorAtNewLine == entry(r.cursorAtNewLine) && len(r.lines) == entry(len(r.lines)) && len(r.comments) == entry(len(r.comments))
 //@ loop 1 invariant index: 0 <= $i && $i <= len(decorations)
 //@ loop 1 invariant lines_array_old_or_fresh: arr(r.lines) == old(arr(r.lines)) || !wasAllocated(arr(r.lines))
